@@ -85,11 +85,15 @@ SumSeq(s) == IF s = <<>> THEN 0 ELSE s[1] + SumSeq(Tail(s))
 
 MutantInputs == {x \in UNION {MutantsOf(Enc(v)) : v \in MutDomain} : (SumSeq(x) + Len(x)) % NShards = Shard}
 
+\* Mode "file": inputs written by the Go side (vh cbor-gen: random nested encodings and their mutations, beyond the
+\* strings enumerated here); the specification only evaluates them.
+FileInputs == LET raw == ndJsonDeserialize("trace.ndjson") IN {raw[i].inp : i \in DOMAIN raw}
+
 Init ==
   /\ m = M0 /\ consumed = <<>>
-  /\ IF Mode = "explore"
-       THEN rest \in Seeds /\ free = Free
-       ELSE rest \in MutantInputs /\ free = 0
+  /\ CASE Mode = "explore" -> rest \in Seeds /\ free = Free
+       [] Mode = "file" -> rest \in FileInputs /\ free = 0
+       [] OTHER -> rest \in MutantInputs /\ free = 0
 
 Feed(b) == /\ m' = StepM(m, b)
            /\ consumed' = Append(consumed, b)
